@@ -229,6 +229,10 @@ pub fn p_qpack_lookup_index_sound() {
     check_lookup("origin", "https://example.org", true);
     check_lookup("user-agent", "x", true);
     check_lookup("x-frame-options", "sameorigin", true);
+    // values that differ from the table's spelling only by letter case are NOT exact hits
+    check_lookup(":method", "connect", true);
+    check_lookup("access-control-allow-credentials", "false", true);
+    check_lookup("x-frame-options", "DENY", true);
     check_lookup(":protocol", "webtransport", false);
     check_lookup("x-not-in-table", "", false);
     check_lookup("", "", false);
